@@ -156,7 +156,7 @@ class Algebra:
             assert all(eJ[0] == 'e' for eJ in self.basis)
             vecs = [eJ[1:] for eJ in self.basis if len(eJ) == 2]
             if vecs:
-                self.start_index = int(min(vecs))
+                self.start_index = int(min(vecs), base=16)  # labels are hex digits, as everywhere else
             vec2bin = {vec: 2 ** j for j, vec in enumerate(vecs)}
             self.canon2bin = {eJ: reduce(operator.xor, (vec2bin[v] for v in eJ[1:]), 0)
                               for eJ in self.basis}
